@@ -1,30 +1,63 @@
-"""Native replay for C12: reflection records of real schemas (serialisation with the reflection schema included)."""
+"""Native replay for C12: reflection records of real schemas, judged by the same predicate PyVC proves
+(spec/reflect.py:is_fcp_rec), plus serialisation with the built-in reflection schema.  Replay/witness only."""
 import sys, json
 from fcp.parser import get_fcp_from_string
 from fcp.error import Logger
 from fcp.reflection import get_reflection_schema
 from fcp.serde import encode, decode
 from native.parse import GOOD
+from spec import reflect as R
+from spec import prelude as P
 
-SCHEMAS = [GOOD, 'version: "3"\nstruct A { x @0: [Optional[[u8, 2]]], }\nimpl can for A { id: 1, signal x { mux_count: 2, }, }\n']
+SCHEMAS = [
+    GOOD,
+    'version: "3"\nstruct A { x @0: [Optional[[u8, 2]]], }\nimpl can for A { id: 1, signal x { mux_count: 2, }, }\n',
+    # falsy declared values: unit "", range starting at 0.0
+    'version: "3"\nstruct A { x @0: u8 | unit("") range(0.0, 0.0), y @1: f32 | unit("V") range(-1.5, 2.5), }\n',
+    # signal blocks / bindings with non-string option values
+    'version: "3"\nenum E { A0 = 0, A1 = 5, }\nstruct A { e @0: E, b @1: i9, s @2: str, }\n'
+    'impl can for A { id: 10, bus: "b1", period: 100, signal b { mux_count: 4, scale: 0.5, endianess: "big", }, signal e { mux_signal: "b", }, }\n',
+    'version: "3"\nstruct R { a @0: u8, }\nstruct S { b @0: [R], }\nservice Svc @1 { method m1(R) @0 returns S, method m2(S) @1 returns R, }\n',
+]
+
+
+def keys_of(x, acc):
+    if isinstance(x, dict):
+        for k, v in x.items():
+            acc.add(k)
+            keys_of(v, acc)
+    elif isinstance(x, list):
+        for v in x:
+            keys_of(v, acc)
 
 
 def check(src):
-    f = get_fcp_from_string(src, Logger({})).unwrap()
+    r0 = get_fcp_from_string(src, Logger({}))
+    if r0.is_err():
+        return None      # not an accepted schema: outside the property
+    f = r0.unwrap()
     try:
         r = f.reflection()
     except Exception as e:
         return {"schema": src, "check": "reflection() raises", "observed": repr(e)}
-    names = [s["name"] for s in r["structs"]]
-    if names != [s.name for s in f.structs]:
-        return {"schema": src, "check": "structs listed", "observed": names}
-    for s, rs in zip(f.structs, r["structs"]):
-        for fld, rf in zip(s.fields, rs["fields"]):
-            if rf["name"] != fld.name or rf["field_id"] != fld.field_id or rf["unit"] != fld.unit:
-                return {"schema": src, "check": f"field {fld.name} record", "observed": rf}
-    for i, ri in zip(f.impls, r["impls"]):
-        if [sb["name"] for sb in ri["signals"]] != [sb.name for sb in i.signals]:
-            return {"schema": src, "check": f"signal blocks of binding {i.name}", "observed": ri["signals"]}
+    P.STR_UNIVERSE.clear()
+    keys_of(r, P.STR_UNIVERSE)
+    try:
+        ok = R.is_fcp_rec(r, f)
+    except Exception as e:
+        return {"schema": src, "check": "record does not have the shape is_fcp_rec reads", "observed": repr(e)}
+    if not ok:
+        which = []
+        for nm, pred, nodes in (("structs", R.is_struct_rec, f.structs), ("enums", R.is_enum_rec, f.enums),
+                                ("impls", R.is_impl_rec, f.impls), ("services", R.is_service_rec, f.services)):
+            recs = r.get(nm)
+            if not isinstance(recs, list) or len(recs) != len(nodes):
+                which.append(f"{nm}: {len(recs) if isinstance(recs, list) else recs!r} records for {len(nodes)} declared")
+                continue
+            for d, n in zip(recs, nodes):
+                if not pred(d, n):
+                    which.append(f"{nm}: record of {n.name} = {d!r}")
+        return {"schema": src, "check": "spec/reflect.py:is_fcp_rec(record, schema)", "observed": which or repr(r)[:400]}
     return None
 
 
